@@ -8,25 +8,27 @@ A == "127.0.0.1"
 B == "127.0.0.2"
 C == "127.0.0.3"
 D == "127.0.0.4"
+E == "127.0.0.5"
 Cfg == BaseCfg
-Pre == Reg(A, "alice", "u1") \o Reg(B, "bob", "u2") \o Reg(C, "carol", "u3") \o Reg(D, "dave", "u4")
-       \o << St(A, "JOIN", <<<<"#one">>>>), St(B, "JOIN", <<<<"#one">>>>), St(C, "JOIN", <<<<"#one">>>>),
+Pre == Reg(A, "alice", "u1") \o Reg(B, "bob", "u2") \o Reg(C, "carol", "u3") \o Reg(D, "dave", "u4") \o Reg(E, "zoë", "u5")
+       \o << St(A, "JOIN", <<<<"#one">>>>), St(B, "JOIN", <<<<"#one">>>>), St(C, "JOIN", <<<<"#one">>>>), St(E, "JOIN", <<<<"#one">>>>),
              St(A, "MODE", <<<<"#one">>, <<"+b", "bob!*@*">>>>) >>
 M(c, g1) == St(c, "MODE", <<<<"#one">>, g1>>)
 Lawful == { M(A, <<"-b", "bob!*@*">>), M(A, <<"+e", "*!*@127.0.0.2">>), M(A, <<"-e", "*!*@127.0.0.2">>), M(A, <<"+m">>), M(A, <<"-m">>),
             M(A, <<"+v", "carol">>), M(A, <<"-v", "carol">>), M(A, <<"-n">>), M(A, <<"+n">>), M(A, <<"+b", "*!*u4@*">>),
-            M(A, <<"+v", "bob">>), M(A, <<"-v", "bob">>), M(A, <<"+s">>), M(A, <<"-s">>) }
+            M(A, <<"+v", "bob">>), M(A, <<"-v", "bob">>), M(A, <<"+s">>), M(A, <<"-s">>),
+            M(A, <<"+b", "zo?!*@*">>), M(A, <<"+e", "z??">>), M(A, <<"+b", "zo??!*@*">>) }       \* one character under '?', however many bytes it has
 Refused == { M(c, g) : c \in {B, C, D}, g \in { <<"+b", "nobody">>, <<"-b", "bob!*@*">>, <<"+e", "bob">>, <<"-e", "*!*@127.0.0.2">>,
                                                  <<"-m">>, <<"+m">>, <<"+v", "carol">>, <<"-b+e", "bob!*@*", "bob!*@*">> } }
-Speak == { St(c, v, <<<<"#one">>, <<"hello">>>>) : c \in {B, C, D}, v \in {"PRIVMSG", "NOTICE"} }
+Speak == { St(c, v, <<<<"#one">>, <<"hello">>>>) : c \in {B, C, D, E}, v \in {"PRIVMSG", "NOTICE"} }
          \cup { M(B, <<"+b">>), M(C, <<"+e">>), M(C, <<>>) }
 Enabled(st) == st.c \in DOMAIN S.conns
 Steps == {st \in Lawful \cup Refused \cup Speak : Enabled(st)}
 Init == InitWith(Cfg, Pre)
 Next == NextWith(Steps)
 Spec == Init /\ [][Next]_vars
-Depth == 5
-DepthT == 7
+Depth == 4
+DepthT == 6
 Constraint == Len(hist) <= Len(Pre) + Depth
 ASSUME PrintT(<<"CFG", ToJson(CfgJson(Cfg))>>)
 =============================================================================
